@@ -72,3 +72,71 @@ package ast
 //@ func ByteSliceReference.Length
 //@   ensures b.Start <= b.End ==> result == b.End - b.Start
 //@   pure
+
+// C15: literal -> JSON. A GraphQL string literal may contain raw control bytes (TAB is a SourceCharacter); a JSON
+// string may not: the content is escaped before it is quoted.
+//@ func escapeControlBytes
+//@   ensures {no.raw.control.byte.survives} forall k in 0..len(result) :: result[k] >= 0x20
+//@   ensures {clean.content.is.returned.as.is} (forall k in 0..len(content) :: content[k] >= 0x20) ==> result == content
+//@   fresh
+//@   loop 0:
+//@     invariant 0 <= clean && clean <= len(content)
+//@     invariant forall k in 0..clean :: content[k] >= 0x20
+//@   loop 1:
+//@     invariant fresh(out) && clean <= i && i <= len(content)
+//@     invariant clean < len(content) && content[clean] < 0x20
+//@     invariant forall k in 0..len(out) :: out[k] >= 0x20
+
+//@ func Document.StringValueContentBytes
+//@   pure
+//@   trusted accessor: the content bytes of the string literal (parser refs in range)
+//@ spec isDigit(c byte) bool = c >= '0' && c <= '9'
+//@ func numberLiteralIsJSON
+//@   ensures {accepted.literals.start.and.end.with.a.digit} result ==> len(b) > 0 && isDigit(b[0]) && isDigit(b[len(b)-1])
+//@   ensures {accepted.literals.have.no.leading.zero} result && len(b) > 1 && b[0] == '0' ==> !isDigit(b[1])
+//@   pure
+//@   loop 0:
+//@     invariant 0 <= i && i <= len(b) && n == len(b)
+//@     invariant forall k in 0..i :: isDigit(b[k])
+//@   loop 1:
+//@     invariant fraction <= i && i <= len(b) && n == len(b) && fraction >= 1
+//@     invariant forall k in fraction..i :: isDigit(b[k])
+//@   loop 2:
+//@     invariant exponent <= i && i <= len(b) && n == len(b) && exponent >= 1
+//@     invariant forall k in exponent..i :: isDigit(b[k])
+
+//@ func stringEscapesAreJSON
+//@   pure
+//@   safety none
+//@ func Document.IntValueRaw
+//@   pure
+//@   trusted accessor: the bytes of the integer literal without sign (parser refs in range)
+//@ func Document.FloatValueRaw
+//@   pure
+//@   trusted accessor: the bytes of the float literal without sign (parser refs in range)
+
+//@ func Document.writeJSONValue
+//@   requires d != nil
+//@   ghost var g_numArr int = 0
+//@   ghost var g_numOff int = 0
+//@   ghost var g_numLen int = 0
+//@   ghost var g_numOK bool = false
+//@   ghost var g_strArr int = 0
+//@   ghost var g_strOff int = 0
+//@   ghost var g_strLen int = 0
+//@   ghost var g_strOK bool = false
+//@   at call numberLiteralIsJSON: ghost g_numArr = arr(arg0)
+//@   at call numberLiteralIsJSON: ghost g_numOff = off(arg0)
+//@   at call numberLiteralIsJSON: ghost g_numLen = len(arg0)
+//@   at call numberLiteralIsJSON: ghost g_numOK = result
+//@   at call stringEscapesAreJSON: ghost g_strArr = arr(arg0)
+//@   at call stringEscapesAreJSON: ghost g_strOff = off(arg0)
+//@   at call stringEscapesAreJSON: ghost g_strLen = len(arg0)
+//@   at call stringEscapesAreJSON: ghost g_strOK = result
+//@   at call Document.IntValueRaw: ghost g_numOK = false
+//@   at call Document.FloatValueRaw: ghost g_numOK = false
+//@   at call Buffer.Write: assert {number.literals.are.copied.only.after.the.grammar.check.passed.on.these.bytes} value.Kind == ValueKindInteger || value.Kind == ValueKindFloat ==> g_numOK && arr(arg1) == g_numArr && off(arg1) == g_numOff && len(arg1) == g_numLen
+//@   at call escapeControlBytes: assert {string.content.is.escaped.only.after.its.escape.sequences.were.checked} g_strOK && arr(arg0) == g_strArr && off(arg0) == g_strOff && len(arg0) == g_strLen
+//@   at call WrapBytes: assert {string.content.is.escaped.before.it.is.quoted} value.Kind == ValueKindString ==> (forall k in 0..len(arg0) :: arg0[k] >= 0x20)
+//@   modifies *
+//@   safety none
